@@ -101,17 +101,20 @@ def specEntry (N : Nat) (targets : List Nat) (x y : List Nat) : Option (List Nat
 
 /-! ## Mixed-radix indices (first subsystem most significant, as `qutip.tensor`) -/
 
+/-- product of the dimensions -/
+def prodL : List Nat → Nat
+  | [] => 1
+  | d :: ds => d * prodL ds
+
 def digits : List Nat → Nat → List Nat
   | [], _ => []
-  | d :: ds, idx =>
-    let w := ds.foldl (· * ·) 1
-    (idx / w) % d :: digits ds (idx % w)
+  | d :: ds, idx => (idx / prodL ds) % d :: digits ds (idx % prodL ds)
 
 def undigits : List Nat → List Nat → Nat
   | [], _ => 0
   | _, [] => 0
-  | _ :: ds, v :: vs => v * ds.foldl (· * ·) 1 + undigits ds vs
+  | _ :: ds, v :: vs => v * prodL ds + undigits ds vs
 
-def total (dims : List Nat) : Nat := dims.foldl (· * ·) 1
+def total (dims : List Nat) : Nat := prodL dims
 
 end QipVerif.Embed
